@@ -8,6 +8,9 @@ import (
 	"runtime"
 	"sort"
 	"strings"
+	"sync"
+	"sync/atomic"
+	"time"
 
 	"github.com/kelindar/column"
 	"github.com/klauspost/compress/s2"
@@ -21,12 +24,19 @@ import (
 // ---------------------------------------------------------------------------
 
 type Machine struct {
+	lastBeat int64 // unix nanoseconds of the last sign of progress (atomic)
+	stopBeat chan struct{}
+	traceMu  sync.Mutex
 	// C14: a second Snapshot call issued at this yield point of a snapshot in progress (see installTail)
 	OverlapAt   string
 	OverlapRan  bool
 	OverlapErr  error
 	OverlapBuf  bytes.Buffer
 	OverlapRows int
+	// C14: a LARGE transaction (well over the 1 MiB block of the recorder's stream) that runs at this
+	// yield point of the snapshot in progress (see installTail)
+	BigTailAt string
+	BigTail   func()
 	Prop        string
 	Sch         *Schema
 	M           *Model
@@ -58,13 +68,54 @@ func NewMachine(prop string, sch *Schema, opts column.Options) *Machine {
 	mc := &Machine{Prop: prop, Sch: sch, M: NewModel(sch), Opts: opts, Flags: map[string]bool{}, everDeleted: map[uint32][]bool{}}
 	mc.C = newCollection(sch, opts)
 	mc.logf("schema %s", sch)
+	// A sequential history makes progress all the time (every action, check and logged line is a
+	// heartbeat). If nothing happens for several minutes, a call into the library has not come
+	// back: with a single goroutine at work that is a lock which is never released.
+	mc.stopBeat = make(chan struct{})
+	limit := time.Duration(envInt("VERIF_WATCHDOG_S", 300)) * time.Second
+	go func() {
+		tick := time.NewTicker(time.Second)
+		defer tick.Stop()
+		for {
+			select {
+			case <-mc.stopBeat:
+				return
+			case <-tick.C:
+				if last := atomic.LoadInt64(&mc.lastBeat); time.Since(time.Unix(0, last)) > limit {
+					watchdogFire(mc.Prop, "a step of a sequential history", limit, func() string {
+						return "(the last lines of the trace; the step after the last line is the one that hangs)\n" + mc.tailTrace(40)
+					})
+					select {}
+				}
+			}
+		}
+	}()
 	return mc
 }
 
-func (mc *Machine) Close() { mc.C.Close() }
+func (mc *Machine) Close() {
+	close(mc.stopBeat)
+	mc.C.Close()
+}
+
+// beat records progress (see NewMachine).
+func (mc *Machine) beat() { atomic.StoreInt64(&mc.lastBeat, time.Now().UnixNano()) }
+
+func (mc *Machine) tailTrace(n int) string {
+	mc.traceMu.Lock()
+	defer mc.traceMu.Unlock()
+	tr := mc.Trace
+	if len(tr) > n {
+		tr = tr[len(tr)-n:]
+	}
+	return strings.Join(tr, "\n")
+}
 
 func (mc *Machine) logf(format string, args ...any) {
+	mc.beat()
+	mc.traceMu.Lock()
 	mc.Trace = append(mc.Trace, fmt.Sprintf(format, args...))
+	mc.traceMu.Unlock()
 }
 
 func (mc *Machine) Desc() string { return strings.Join(mc.Trace, "\n") }
@@ -507,6 +558,7 @@ func (mc *Machine) ActLateColumn(t *rapid.T) {
 
 // CheckCount compares Collection.Count with the model.
 func (mc *Machine) CheckCount(t *rapid.T) {
+	mc.beat()
 	if got := mc.C.Count(); got != mc.M.Count() {
 		mc.fail(t, "Count() = %d, model has %d live rows", got, mc.M.Count())
 	}
@@ -515,6 +567,7 @@ func (mc *Machine) CheckCount(t *rapid.T) {
 // CheckRows reads the given live rows through two different reader paths and
 // compares with the model.
 func (mc *Machine) CheckRows(t *rapid.T, rows []uint32, pathA, pathB int) {
+	mc.beat()
 	for _, off := range rows {
 		want, ok := mc.M.Rows[off]
 		if !ok {
@@ -552,6 +605,7 @@ func (mc *Machine) CheckTouched(t *rapid.T, eff *TxnEffect) {
 // CheckFull extracts the whole collection through Range and compares it with
 // the model (rows, values, count, order).
 func (mc *Machine) CheckFull(t *rapid.T, useAny bool) {
+	mc.beat()
 	got, txnCount, err := extractRange(mc.C, mc.Sch, mc.M.ColLive, useAny)
 	if err != nil {
 		mc.fail(t, "full read: %v", err)
@@ -599,6 +653,7 @@ func trimStack(s string) string {
 // CheckKeys verifies, for every key of the alphabet (and every key the model
 // holds), that lookups by key agree with the model.
 func (mc *Machine) CheckKeys(t *rapid.T, extra ...string) {
+	mc.beat()
 	if mc.Sch.Key < 0 {
 		return
 	}
